@@ -525,11 +525,76 @@ func c04LateResponseWrite() vs.Verdict {
 	return f.verdict(strings.Join(evs, ","))
 }
 
+// c04CancelDuringPeerClose: a call is in flight, its handler running, when the peer begins a
+// graceful Close (which waits for that handler); then the caller cancels.  The connection is
+// healthy - it is merely draining - so the cancellation must still reach exactly that handler:
+// the call returns with the context's error, the handler's context ends, and Close completes.
+// closer: which side closes ("server": the side running the handler; "client": the caller's own side).
+func c04CancelDuringPeerClose(closer string) vs.Verdict {
+	f := &e1Fail{prefix: "c04 cancel-during-close"}
+	ctx := context.Background()
+	vs.Quiet(true)
+	started := make(chan struct{})
+	p, err := e1Connect(ctx, nil, nil, "2025-06-18", false, func(s *Server) {
+		AddTool(s, &Tool{Name: "wait"}, func(hctx context.Context, r *CallToolRequest, in map[string]any) (*CallToolResult, any, error) {
+			close(started)
+			<-hctx.Done()
+			vs.Event("handler context ended")
+			return nil, nil, hctx.Err()
+		})
+	})
+	if err != nil {
+		return vs.Verdict{Bad: err.Error(), Sig: "c04 setup"}
+	}
+	vs.Quiet(false)
+	cctx, cancel := context.WithCancel(ctx)
+	done := make(chan string, 3)
+	var callErr error
+	vs.Go(func() {
+		_, callErr = p.cs.CallTool(cctx, &CallToolParams{Name: "wait", Arguments: map[string]any{}})
+		done <- "call"
+	})
+	<-started
+	vs.Go(func() {
+		if closer == "server" {
+			p.ss.Close()
+		} else {
+			p.cs.Close()
+		}
+		vs.Event("close returned")
+		done <- "close"
+	})
+	vs.Go(func() {
+		vs.Point()
+		vs.Event("caller cancels")
+		cancel()
+		done <- "cancel"
+	})
+	for i := 0; i < 3; i++ {
+		<-done
+	}
+	vs.Quiet(true)
+	p.cs.Close()
+	p.ss.Close()
+	vs.WaitIdle()
+	vs.Quiet(false)
+	evs := vs.Events()
+	if callErr == nil {
+		f.failf("cancelled-call-succeeded", "the cancelled call returned no error: %s", evJoin(evs))
+	}
+	if evIndex(evs, "handler context ended") < 0 {
+		f.failf("handler-not-cancelled", "the handler's context never ended: %s", evJoin(evs))
+	}
+	return f.verdict(fmt.Sprintf("closer=%s err=%v", closer, callErr != nil))
+}
+
 func TestVerifC04(t *testing.T) {
 	env := verifx.LoadEnv("C04")
 	scs := []*verifx.Scenario{
 		vs.E1(t, "session/2025-06-18", env.Pick(1, 2), vs.Options{}, func() vs.Verdict { return c04Sessions("2025-06-18") }),
 		vs.E1(t, "scripted-peer", env.Pick(2, 3), vs.Options{}, func() vs.Verdict { return c04Scripted() }),
+		vs.E1(t, "session/cancel-while-the-handler-side-closes", env.Pick(2, 3), vs.Options{}, func() vs.Verdict { return c04CancelDuringPeerClose("server") }),
+		vs.E1(t, "session/cancel-while-the-caller-side-closes", env.Pick(2, 3), vs.Options{}, func() vs.Verdict { return c04CancelDuringPeerClose("client") }),
 		vs.E1(t, "streamable/abandoned-nested-call/no-standalone-stream", env.Pick(1, 2), vs.Options{}, func() vs.Verdict { return c10UpcallCancel("c04 nested-cancel", false, false) }),
 		vs.E1(t, "streamable/abandoned-nested-call", env.Pick(1, 2), vs.Options{}, func() vs.Verdict { return c10UpcallCancel("c04 nested-cancel", false, true) }),
 		// the client cancels the outer call and abandons its exchange while the handler's nested request
